@@ -54,6 +54,7 @@ PROPS["C08"] = dict(
             dict(harness="VerifHarness_C08_pre1", reach=["ok", "error", "stmt"]),
             dict(harness="VerifHarness_C08_suf1", reach=["ok", "stmt"]),
             dict(harness="VerifHarness_C08_symopts1", reach=["ok", "stmt"]),
+            dict(module="cmd/atlas", pkg="ariga.io/atlas/cmd/atlas/internal/migratelint", hdir="migratelint", harness="VerifHarness_C08_lines3", reach=["scanned"]),
         ],
         "thorough": [
             dict(harness="VerifHarness_C08_free3", reach=["ok", "error", "stmt"]),
@@ -65,12 +66,13 @@ PROPS["C08"] = dict(
             dict(harness="VerifHarness_C08_pre2", reach=["ok", "error", "stmt"], flags=["-domain"], cross=False),
             dict(harness="VerifHarness_C08_suf2", reach=["ok", "stmt"], flags=["-domain"], cross=False),
             dict(harness="VerifHarness_C08_symopts2", reach=["ok", "stmt"], flags=["-domain"], cross=False),
+            dict(module="cmd/atlas", pkg="ariga.io/atlas/cmd/atlas/internal/migratelint", hdir="migratelint", harness="VerifHarness_C08_lines4", reach=["scanned"]),
         ],
     },
     bounds={
         "quick": "all inputs of 3 fully symbolic bytes (0..255) x the 5 driver option sets; atlas:delimiter header + 2 free bytes; "
                  "18 feature prefixes (DELIMITER, BEGIN, $$, GO, comments, quotes...) + 1 free byte x 5 option sets; BEGIN + 1 free byte + 6 closers; "
-                 "all 2^10 option sets (symbolic booleans) on 1 free byte",
+                 "all 2^10 option sets (symbolic booleans) on 1 free byte; line mapping of the lint report: a CRLF file with 3 symbolic bytes over {CR, LF, ;, a, blank, -}",
         "thorough": "all inputs of 4 fully symbolic bytes for the default/MySQL/PostgreSQL/T-SQL option sets, 3 bytes for all five; header + 3; "
                     "prefixes + 2 free bytes; BEGIN + 2 free bytes + closers; symbolic option set on 2 free bytes",
     },
